@@ -47,10 +47,10 @@ fn kvs(max: usize) -> impl Strategy<Value = Vec<Kv>> {
 }
 
 /// Wide lists (size thresholds such as "scan up to 16, bisect above" are a classic place for bugs): 17-40 pairs,
-/// keys mostly from a 48-name alphabet `w00..w47` (so many distinct keys) mixed with the small alphabet (duplicates).
+/// keys mostly from a 96-name alphabet `w00..w95` (so many distinct keys) mixed with the small alphabet (duplicates).
 fn wide_kvs() -> impl Strategy<Value = Vec<Kv>> {
     let wkey = prop_oneof![
-        6 => (0u32..48).prop_map(|i| format!("w{i:02}")),
+        6 => (0u32..96).prop_map(|i| format!("w{i:02}")),
         1 => key(),
     ];
     prop_oneof![
@@ -140,6 +140,7 @@ fn main() {
             s.require("depth>=2", 3000);
             s.require("len>16", 1500);
             s.require("len>32", 500);
+            s.require("distinct-keys>32", 200);
             s.require("dedup-over->16", 300);
             s.require("macro-props->16-reordering-rename", 100);
             s.gen("runtime-trees", s.n(300_000, 3_000_000), case, check_case);
